@@ -56,7 +56,7 @@ LEVEL_NOTE = ("Trusted: CrossHair opcode models, z3, stubs S1 (format), S3 (abst
               "Bounded in the number of tempo events and events per section only.")
 TECHNIQUE = "CrossHair symbolic execution of BPMEvents lookup/constructors with z3; twin reachability; concrete replay"
 EXPLANATION = "see obligation_table; every obligation is a CrossHair path-exhaustive run over symbolic ints"
-BOUNDS = "K<=4 (quick) / K<=6 (thorough) tempo events; M<=2/3 events per section in arbitrary tick order; ints unbounded"
+BOUNDS = "K<=4 (quick) / K<=6 (thorough) tempo events symbolic, 18 in the long-map lookup, 50..12000 native; M<=2/3 events per section in arbitrary tick order; ints unbounded; 7 interpreter configurations"
 OUTSIDE = "more tempo events than K; float arithmetic of the kernel (C01/C12 FK lemmas)"
 ASSUMPTIONS = ["S1 formatting stub", "S3 abstract time: timedelta arithmetic is exact integer microseconds",
                "S4 kernel stub keeps the live guard prefix; arithmetic tail verified separately (FK)"]
